@@ -636,7 +636,7 @@ impl Gen {
         let mut n = 0usize;
         // one history in four lives next to price 0 (0 is a multiple of every tick size: a legal price)
         // ... one near the top of the price range (limit prices stay strictly below 2^32 - 1), one in the middle of it
-        let base = match self.rng.gen_range(0..12) { 0 | 1 | 2 => 0u32, 3 => (u32::MAX - 1) / tick - 8, 4 => (1u32 << 31) / tick, _ => 20u32 };
+        let base = match self.rng.gen_range(0..12) { 0 | 1 | 2 => 0u32, 3 => (u32::MAX - 1) / tick - 5, 4 => (1u32 << 31) / tick, _ => 20u32 };
         let mut big_left = 2u32;      // at most two very large volumes per history: per-side resting volume and traded volume stay below 2^32
         let mut last_q: Option<(usize, u32)> = None;      // (id, price) of the order queued by the previous operation
         let mut created = 0usize;                          // exact number of orders that exist (what fix_ids computes), so that `last_q` names the right order
